@@ -29,6 +29,9 @@ SIGNATURES = ([(n, ["P"]) for n in ("car", "cdr", "caar", "cadr", "cdar", "cddr"
                  ("apply", ["F", "L"]), ("apply", ["F", "A", "L"])])
 # only natively implemented builtins (and the c[ad]r compositions, which end in one): what map, append or list-tail do with a non-list is "an error" in
 # R7RS without a demanded detection, and C08 speaks of builtins
+FIXED_UNTYPED = [("cons", ["A", "A"]), ("eqv?", ["A", "A"]), ("eq?", ["A", "A"]), ("equal?", ["A", "A"]), ("not", ["A"]), ("null?", ["A"]), ("pair?", ["A"]), ("list?", ["A"]),
+                 ("boolean?", ["A"]), ("symbol?", ["A"]), ("procedure?", ["A"]), ("vector?", ["A"]), ("number?", ["A"]), ("list-tail", ["L", "I"]), ("list-ref", ["L", "I"]),
+                 ("memq", ["A", "L"]), ("memv", ["A", "L"]), ("fold-left", ["F", "A", "L"])]
 VALID = {"N": [1, 2, 7, Fraction(1, 2)], "Z": [7, 3, 2], "I": [0, 1], "P": [q([[1, 2], 3, 4, 5])], "L": [q([1])], "V": [S("vv")], "F": [S("id")], "A": [0, q(S("k"))]}
 WRONG = {"num": [5], "sym": [q(S("a"))], "str": ["s"], "bool": [True, False], "nil": [q([])], "pair": [q([1, 2])], "vec": [[S("vector"), 1, 2]], "proc": [S("car")]}
 COMPATIBLE = {"N": {"num"}, "Z": {"num"}, "I": {"num"}, "P": {"pair"}, "L": {"nil", "pair"}, "V": {"vec"}, "F": {"proc"}}
@@ -56,8 +59,11 @@ class FG:
         if fault == "non-procedure":
             op = r.choice([5, q(S("a")), "s", [S("vector"), 1], True, q([1, 2])])
             return op, [t(r.randint(0, 9)) for _ in range(r.randint(0, 2))]
+        if fault == "arity" and r.random() < 0.45:
+            return self.systematic_arity()
         if fault == "arity":
             return r.choice([
+                ([S("lambda"), [S("a")], S("a")], [t(1), 2]), ([S("lambda"), [], 1], [t(1)]), ([S("lambda"), [S("a"), S("b")], S("b")], [1, t(2), 3]),
                 (S("f2"), [t(1)]), (S("f2"), [t(1), 2, t(3)]), (S("f2"), []), (S("fr"), []), (S("f0"), [t(1)]),
                 (S("car"), []), (S("car"), [q([1]), t(2)]), (S("cons"), [t(1)]), (S("vector-ref"), [S("vv")]), (S("not"), []),
                 ([S("lambda"), [S("a"), S("b")], S("a")], [t(1)]), ([S("lambda"), [S("a"), Sym("."), S("r")], S("a")], []) if False else (S("fr"), []),
@@ -95,6 +101,18 @@ class FG:
                 return None, [[S("lambda"), [], [S("define"), S("early"), [S("begin"), [S("set!"), S("later-zz"), t(1)], 0]], [S("define"), S("later-zz"), t(2)], [S("list"), S("early"), S("later-zz")]]]
             return None, [S("set!"), S("no-such-variable"), t(1)]
         raise ValueError(fault)
+
+    def systematic_arity(self):
+        """a builtin of fixed arity from the signature tables with one well-typed argument too many, or one too few"""
+        r = self.rng
+        name, sig = r.choice([x for x in SIGNATURES + FIXED_UNTYPED if not (x[1] and x[1][-1].endswith("*"))])
+        sig = list(sig)
+        if sig and r.random() < 0.4:
+            sig = sig[:-1]
+        else:
+            sig = sig + [r.choice(["A", "N", "L"])]
+        args = [self.tick(r.choice(VALID[ty])) if r.random() < 0.3 else r.choice(VALID[ty]) for ty in sig]
+        return S(name), args
 
     def systematic_wrong_type(self):
         """a builtin from the signature table, at one of its arities, with one typed position holding a value of another type"""
